@@ -106,7 +106,7 @@ func cmdFunc(args []string) {
 		}
 		for _, r := range verifyAllModes(prog, fi, fc) {
 			if r.Err != "" {
-				fmt.Println("ERROR", r.Func, r.Mode, firstLines(r.Err, 12))
+				fmt.Println("ERROR", r.Func, r.Mode, firstLines(r.Err, 40))
 				bad++
 			}
 			dischargeAll(r.Obligations, *timeout, 0, true)
